@@ -361,7 +361,7 @@ def comp_graph(spec):
 def sccs(nodes, edges):
     """Tarjan (own implementation; not shared with the code under test)."""
     adj = {n: [] for n in nodes}
-    for a, b in edges:
+    for a, b in sorted(edges):      # sorted: independent of the hash seed
         if a in adj and b in adj:
             adj[a].append(b)
     index = {}
